@@ -2,7 +2,7 @@
    positive theorem (a durability round cannot succeed once more than N - Q voters hold another entry at
    the proposal's first index — e.g. the newer authority's quorum-durable barrier), bounded checks. *)
 From WK Require Import Base.Base.
-From WK Require Import Model.ReplicaLog Model.QuorumLog Model.Cluster Model.Monitor_C04.
+From WK Require Import Model.ReplicaLog Model.QuorumLog Model.Cluster Model.Monitor_C01 Model.Monitor_C04.
 From WK Require Import Proof.ReplicaLog Proof.QuorumLog_Commit Proof.QuorumLog_C01 Proof.Cluster_Lift Proof.QuorumLog_C01_partial.
 From Coq Require Import ZifyBool ZifyN.
 Open Scope N_scope.
